@@ -6,6 +6,7 @@ package main
 import (
 	"fmt"
 	"math/rand"
+	"slices"
 	"sort"
 	"strings"
 
@@ -21,6 +22,7 @@ type Universe struct {
 	Vulns    []GenVuln           `json:"vulns"`
 	Pkgs     []string            `json:"pkgs"`
 	Versions map[string][]string `json:"versions"`
+	Direct   []string            `json:"direct"` // packages the manifest requires directly
 	NameSafe bool                `json:"name_safe"` // no package name needs escaping in a gjson path (informational)
 }
 
@@ -32,7 +34,8 @@ type GenVuln struct {
 	Introduced string   `json:"introduced"`
 	Fixed      string   `json:"fixed,omitempty"`
 	Versions   []string `json:"versions,omitempty"`
-	Severity   string   `json:"severity,omitempty"`
+	Severity   string   `json:"severity,omitempty"`     // top-level severity
+	AffSev     string   `json:"aff_severity,omitempty"` // affected[].severity
 }
 
 // Opts is the option part of a case.
@@ -46,6 +49,8 @@ type Opts struct {
 	MaxUpgrades     int      `json:"max_upgrades"`
 	NoIntroduce     bool     `json:"no_introduce"`
 	MavenManagement bool     `json:"maven_management"`
+	// Upgrade is the per-package upgrade.Config ("" = default level): major|minor|patch|none.
+	Upgrade map[string]string `json:"upgrade,omitempty"`
 }
 
 var npmVersionPool = []string{"1.0.0", "1.0.1", "1.1.0", "1.2.0", "2.0.0", "2.0.1", "2.1.0", "3.0.0"}
@@ -115,7 +120,7 @@ func mavenReq(r *rand.Rand, v string, all []string) string {
 	return "[" + v + ",)"
 }
 
-func genUniverse(r *rand.Rand, sys string, odd bool) *Universe {
+func genUniverse(r *rand.Rand, sys string, odd, deep bool) *Universe {
 	u := &Universe{Sys: sys, Versions: map[string][]string{}, NameSafe: true}
 	n := 3 + r.Intn(4)
 	for i := 0; i < n; i++ {
@@ -140,6 +145,10 @@ func genUniverse(r *rand.Rand, sys string, odd bool) *Universe {
 		}
 		u.Versions[name] = subsetOrdered(r, pool, 2)
 	}
+	edgeP := 35
+	if deep {
+		edgeP = 55
+	}
 	var sb strings.Builder
 	for i, p := range u.Pkgs {
 		sb.WriteString(p + "\n")
@@ -147,7 +156,7 @@ func genUniverse(r *rand.Rand, sys string, odd bool) *Universe {
 			sb.WriteString("\t" + v + "\n")
 			// dependencies only on later packages: acyclic
 			for j := i + 1; j < n; j++ {
-				if r.Intn(100) < 35 {
+				if r.Intn(100) < edgeP {
 					q := u.Pkgs[j]
 					base := pick(r, u.Versions[q])
 					var req string
@@ -171,6 +180,7 @@ func genUniverse(r *rand.Rand, sys string, odd bool) *Universe {
 	for _, i := range perm {
 		direct = append(direct, u.Pkgs[i])
 	}
+	u.Direct = direct
 	if sys == "npm" {
 		u.File = "package.json"
 		deps := map[string][][2]string{}
@@ -272,6 +282,9 @@ func genUniverse(r *rand.Rand, sys string, odd bool) *Universe {
 		if sys == "maven" {
 			bias = 4 // more transitive hits: the override strategy then adds dependencyManagement entries
 		}
+		if deep {
+			bias = 1 // vulnerabilities mostly below the direct dependencies
+		}
 		if r.Intn(10) < bias {
 			p = pick(r, direct) // mostly in what the manifest asks for, so that it is reached
 		}
@@ -299,13 +312,20 @@ func genUniverse(r *rand.Rand, sys string, odd bool) *Universe {
 				gv.Aliases = append(gv.Aliases, u.Vulns[0].ID) // alias naming another record
 			}
 		}
-		switch r.Intn(6) {
+		switch r.Intn(9) {
 		case 0:
 			gv.Severity = sevHigh
 		case 1:
 			gv.Severity = sevMed
 		case 2:
 			gv.Severity = sevLow
+		case 3: // only a per-affected severity: matchSeverity falls back to it
+			gv.AffSev = pick(r, []string{sevHigh, sevMed, sevLow})
+		case 4: // a severity that does not parse
+			gv.Severity = "CVSS:3.1/AV:N/nonsense"
+			if r.Intn(2) == 0 {
+				gv.AffSev = sevHigh // not consulted: there is a top-level entry
+			}
 		}
 		u.Vulns = append(u.Vulns, gv)
 	}
@@ -330,6 +350,9 @@ func (u *Universe) osv() []*osvschema.Vulnerability {
 			}
 			a.Ranges = []osvschema.Range{rg}
 		}
+		if g.AffSev != "" {
+			a.Severity = []osvschema.Severity{{Type: osvschema.SeverityCVSSV3, Score: g.AffSev}}
+		}
 		v.Affected = []osvschema.Affected{a}
 		if g.Severity != "" {
 			v.Severity = []osvschema.Severity{{Type: osvschema.SeverityCVSSV3, Score: g.Severity}}
@@ -339,7 +362,7 @@ func (u *Universe) osv() []*osvschema.Vulnerability {
 	return out
 }
 
-func genOpts(r *rand.Rand, u *Universe, explicitStream bool) Opts {
+func genOpts(r *rand.Rand, u *Universe, explicitStream, pinnedStream bool) Opts {
 	o := Opts{DevDeps: r.Intn(4) != 0, MaxDepth: -1, MaxUpgrades: 1}
 	if u.Sys == "npm" {
 		o.Strategy = "relax"
@@ -376,13 +399,47 @@ func genOpts(r *rand.Rand, u *Universe, explicitStream bool) Opts {
 	case 3:
 		o.MaxDepth = 0
 	}
-	switch r.Intn(8) {
+	switch r.Intn(10) {
 	case 0:
 		o.MinSeverity = 5.0
 	case 1:
 		o.MinSeverity = 9.0
+	case 2:
+		o.MinSeverity = 9.8 // exactly the high score
+	case 3:
+		o.MinSeverity = 9.84 // rounds to 9.8
 	}
 	o.NoIntroduce = r.Intn(4) == 0
+	// per-package upgrade levels, on direct and transitive packages alike; vulnerable packages
+	// are pinned (none) on purpose now and then: the strategies consult the level of the
+	// requirement they change, which need not be the vulnerable package
+	if r.Intn(100) < 40 {
+		o.Upgrade = map[string]string{}
+		levels := []string{"none", "none", "patch", "minor", "major"}
+		for k := 1 + r.Intn(3); k > 0; k-- {
+			p := pick(r, u.Pkgs)
+			if r.Intn(2) == 0 && len(u.Vulns) > 0 {
+				p = pick(r, u.Vulns).Pkg
+			}
+			o.Upgrade[p] = pick(r, levels)
+		}
+		if r.Intn(6) == 0 {
+			o.Upgrade[""] = pick(r, []string{"minor", "patch", "none"})
+		}
+	}
+	if pinnedStream {
+		// every vulnerable package that the manifest does not require directly is pinned, the
+		// direct dependencies stay upgradable: a fix can only come from changing a parent
+		o.Upgrade = map[string]string{}
+		for _, v := range u.Vulns {
+			if !slices.Contains(u.Direct, v.Pkg) {
+				o.Upgrade[v.Pkg] = "none"
+			}
+		}
+		o.Explicit = nil
+		o.MinSeverity = 0
+		o.MaxDepth = -1
+	}
 	switch r.Intn(10) {
 	case 0:
 		o.MaxUpgrades = 0
